@@ -254,6 +254,51 @@ BAD = [
 ]
 
 
+# systematic part of clause (iv): every candidate tag name without arguments
+# inside every block kind and at top level.  Reference: the source is valid
+# only if the name is a continuation the enclosing block accepts there.
+KNOWN = ['var', 'call', 'return', 'comment', 'if', 'elif', 'else', 'unless',
+         'in', 'with', 'let', 'try', 'except', 'finally', 'raise', 'tree']
+GRAM2_BLOCKS = [('if', 'x'), ('unless', 'x'), ('in', 'x'), ('with', 'x'),
+                ('let', 'a=b'), ('try', ''), ('raise', 'x'), ('comment', ''),
+                (None, '')]
+GRAM2_ACCEPT = {('if', 'else'), ('in', 'else'), ('try', 'except'),
+                ('try', 'finally')}
+GRAM2_OPEN = {('try', 'else')}      # else without except: not fixed
+
+
+def gram2_names():
+    out = []
+    for k in KNOWN:
+        cand = {k, k + k[-1], k + 'x', 'x' + k, k.upper(), k.capitalize()}
+        for i in range(len(k)):
+            for j in range(i + 1, len(k) + 1):
+                cand.add(k[i:j])                 # every substring
+            cand.add(k[:i] + k[i + 1:])          # one character deleted
+            cand.add(k[:i] + k[i] + k[i:])       # one character doubled
+        out.extend(sorted(c for c in cand if c))
+    seen = []
+    for c in out:
+        if c not in seen:
+            seen.append(c)
+    return seen
+
+
+def gram2_sources(block, args, name):
+    """-> [(cls, source)] in the three syntaxes"""
+    a = (' ' + args) if args else ''
+    if block is None:
+        return [('HTML', 'a<dtml-%s>b' % name),
+                ('HTML', 'a<!--#%s-->b' % name),
+                ('String', 'a%%(%s)[b' % name)]
+    return [('HTML', '<dtml-%s%s>a<dtml-%s>b</dtml-%s>'
+             % (block, a, name, block)),
+            ('HTML', '<!--#%s%s-->a<!--#%s-->b<!--#/%s-->'
+             % (block, a, name, block)),
+            ('String', '%%(%s%s)[a%%(%s)[b%%(%s)]'
+             % (block, a, name, block))]
+
+
 def cook(cls, src):
     """-> ('ok', None) | ('exc', exception)"""
     import signal
@@ -393,6 +438,8 @@ def cases(tier):
         for oi in range(len(PUMP_OPENERS[cls])):
             yield {'fam': 'pump', 'cls': cls, 'opener': oi}
     yield {'fam': 'gram'}
+    for bi in range(len(GRAM2_BLOCKS)):
+        yield {'fam': 'gram2', 'block': bi}
 
 
 def alphabet(case):
@@ -479,6 +526,28 @@ def run(case):
                 note(judge(res, cls, blk * k, 'pump-nest'), blk * k)
                 note(judge(res, cls, blk * k + end * k, 'pump-nest'), blk)
                 note(judge(res, cls, blk * k + end * (k + 1), 'pump-nest'))
+    elif fam == 'gram2':
+        block, args = GRAM2_BLOCKS[case['block']]
+        for name in gram2_names():
+            for cls, src in gram2_sources(block, args, name):
+                o = judge(res, cls, src, 'gram2')
+                note(o, src)
+                key = (block, name)
+                if key in GRAM2_OPEN or (name != name.lower() and
+                                         (block, name.lower())
+                                         in GRAM2_ACCEPT | GRAM2_OPEN):
+                    continue        # case-insensitive tag names: not fixed
+                valid = key in GRAM2_ACCEPT
+                if valid != (o == 'accepted'):
+                    res.violate(
+                        'reject-invalid' if not valid else 'accept-valid',
+                        '%s:%s-in-%s' % (
+                            'accepted-invalid' if not valid
+                            else 'rejected-valid',
+                            'known' if name in KNOWN else 'unknown-tag',
+                            block or 'top'),
+                        {'source': src, 'outcome': o},
+                        {'fam': 'one', 'cls': cls, 'src': src})
     else:
         for what, cls, src in BAD:
             o = judge(res, cls, src, 'gram')
